@@ -141,8 +141,12 @@ pub fn parallel_parse(
                     // The collector stops at the first error it receives and drops the
                     // receiver; a result that arrives after that has nobody to go to.
                     if tx.send(Ok(parsed_data)).is_err() {
+                        #[cfg(typeshare_verif)]
+                        crate::verif::file_point("sent");
                         return WalkState::Quit;
                     }
+                    #[cfg(typeshare_verif)]
+                    crate::verif::file_point("sent");
                     WalkState::Continue
                 }
                 Ok(None) => WalkState::Continue,
@@ -151,6 +155,8 @@ pub fn parallel_parse(
                     crate::verif::file_point("send");
                     // An earlier error may already have stopped the collector.
                     let _ = tx.send(Err(err));
+                    #[cfg(typeshare_verif)]
+                    crate::verif::file_point("sent");
                     WalkState::Quit
                 }
             }
